@@ -256,29 +256,31 @@ Theorem C14_cpp_pad_and_subspans :
      else exists r, padAndMoveToAlignment s n = Some (inl (r, sp_off s + pad)) /\ (sp_off s + pad) mod n = 0 /\
             List.length r = List.length (sp_data s) /\
             forall p, bit r p = if (sp_off s <=? p) && (p <? sp_off s + pad) then false else bit (sp_data s) p) /\
-  (* subspan(bits), subspan_bytes(n), subspan(bits_at, size_bits): the new pointer/offset address the same bits,
+  (* subspan(bits), subspan_bytes(n) [current source: the pointer never passes one past the end, the result is always a well formed
+     span; equal to the unclamped text of CppPrims.v whenever offset_bytes <= size], subspan(bits_at, size_bits): the new pointer/offset address the same bits,
      the new size never reaches past the parent's; subspan(bits_at, size_bits) floors the byte size as the source does *)
   (forall (s : span) (bits size_bytes bits_at size_bits : N),
-     span_okb s = true -> (sp_off s + bits <? two64) && (sp_off s + bits_at <? two64) && (size_bits + 8 <? two64) = true ->
-     (let k := (sp_off s + bits) / 8 in
-      let s' := subspan s bits in
-      sp_data s' = skipn (N.to_nat k) (sp_data s) /\ sp_off s' = (sp_off s + bits) mod 8 /\
-      sp_size s' = sp_size s - k /\ 8 * k + sp_off s' = sp_off s + bits /\
-      (forall p, bit (sp_data s') p = bit (sp_data s) (8 * k + p)) /\
-      sp_bits s' = sp_size s * 8 - (sp_off s + bits)) /\
-     (let s' := subspan_bytes s size_bytes in
-      sp_data s' = skipn (N.to_nat (sp_off s / 8)) (sp_data s) /\ sp_off s' = sp_off s mod 8 /\
-      sp_size s' = N.min size_bytes (sp_size s - sp_off s / 8)) /\
-     (let k := (sp_off s + bits_at) / 8 in
-      let o := (sp_off s + bits_at) mod 8 in
-      if (sp_size s <? k) || ((sp_size s - k) * 8 <? o + size_bits)
-      then subspan2 s bits_at size_bits = inr TooSmall
-      else subspan2 s bits_at size_bits = inl (mkspan (skipn (N.to_nat k) (sp_data s)) ((o + size_bits) / 8) o) /\
-           k + (o + size_bits) / 8 <= sp_size s)).
+    span_okb s = true -> (sp_off s + bits <? two64) && (sp_off s + bits_at <? two64) && (size_bits + 8 <? two64) = true ->
+    (let k := (sp_off s + bits) / 8 in
+     let s' := subspan_clamped s bits in
+     sp_data s' = skipn (N.to_nat (N.min k (sp_size s))) (sp_data s) /\ sp_off s' = (sp_off s + bits) mod 8 /\
+     sp_size s' = sp_size s - k /\ span_ok s' /\
+     (forall p, bit (sp_data s') p = bit (sp_data s) (8 * N.min k (sp_size s) + p)) /\
+     sp_bits s' = sp_size s * 8 - (sp_off s + bits) /\
+     (k <= sp_size s -> s' = subspan s bits /\ 8 * k + sp_off s' = sp_off s + bits)) /\
+    (let s' := subspan_bytes_clamped s size_bytes in
+     sp_data s' = skipn (N.to_nat (N.min (sp_off s / 8) (sp_size s))) (sp_data s) /\ sp_off s' = sp_off s mod 8 /\
+     sp_size s' = N.min size_bytes (sp_size s - sp_off s / 8) /\ span_ok s') /\
+    (let k := (sp_off s + bits_at) / 8 in
+     let o := (sp_off s + bits_at) mod 8 in
+     if (sp_size s <? k) || ((sp_size s - k) * 8 <? o + size_bits)
+     then subspan2 s bits_at size_bits = inr TooSmall
+     else subspan2 s bits_at size_bits = inl (mkspan (skipn (N.to_nat k) (sp_data s)) ((o + size_bits) / 8) o) /\
+          k + (o + size_bits) / 8 <= sp_size s)).
 Proof.
   split.
   - (* cpp_pad_and_move_spec *) exact pad_and_move_spec_b.
-  - (* cpp_subspan_spec *) exact subspans_spec_b.
+  - (* cpp_subspan_spec *) exact subspans_clamped_spec_b.
 Qed.
 Print Assumptions C14_cpp_pad_and_subspans.
 
@@ -678,6 +680,17 @@ Theorem C14_py_float_members :
        forall k, bit bs k = (k <? 8 * size) && bit (d_buf d) (d_off d + k)).
 Proof. split; [exact @add_float_appends|exact @fetch_float_spec]. Qed.
 Print Assumptions C14_py_float_members.
+
+(* degenerate bit lengths in Python: 0-bit unsigned and 0-/1-bit signed arguments trip the asserts of the source (raise);
+   in C/C++ a 0-bit store writes nothing and a 0-bit load gives 0 (instances of C14_set_uxx_exact / C14_get_uN_spec with len = 0) *)
+Theorem C14_py_degenerate_bit_lengths :
+  forall (s : ser) (d : des) (value : N) (z : Z) (bits : N),
+    add_unaligned_unsigned s value 0 = None /\ add_aligned_unsigned s value 0 = None /\
+    (bits < 2 -> add_unaligned_signed s z bits = None /\ add_aligned_signed s z bits = None /\
+                 fetch_unaligned_signed d bits = None /\ fetch_aligned_signed d bits = None) /\
+    fetch_unaligned_unsigned d 0 = None /\ fetch_aligned_unsigned d 0 = None.
+Proof. exact py_degenerate_lengths_raise. Qed.
+Print Assumptions C14_py_degenerate_bit_lengths.
 
 (* Sequences of cursor operations on the Python Serializer.  `good op`: if op does not raise, then the invariant, byte-ness, the
    buffer length and every bit before the old cursor survive and the cursor does not move back.  Every primitive is good, good
